@@ -445,7 +445,7 @@ def load_tus(tus, repo: str = REPO, jobs: int | None = None, load: bool = True) 
         dg = _digest(w[0], lang, flags, repo, f"{w[3] or ''}|0")
         if not os.path.exists(os.path.join(CACHE, f"{os.path.basename(w[0])}.{dg}.pkl")):
             todo.append(w)
-    jobs = jobs or min(16, os.cpu_count() or 4, max(1, len(todo)))
+    jobs = jobs or min(int(os.environ.get("VERIF_JOBS", "16")), os.cpu_count() or 4, max(1, len(todo)))
     out = {}
     errs = []
     if not todo:
@@ -453,8 +453,8 @@ def load_tus(tus, repo: str = REPO, jobs: int | None = None, load: bool = True) 
     elif jobs == 1 or len(todo) == 1:
         results = map(_load_one, todo)
     else:
-        ex = cf.ProcessPoolExecutor(jobs)
-        results = ex.map(_load_one, todo)
+        with cf.ProcessPoolExecutor(jobs) as ex:
+            results = list(ex.map(_load_one, todo))
     for tu, r, err, dt in results:
         if err:
             errs.append(f"{tu}: {err}")
